@@ -131,7 +131,7 @@ Definition begin_header (m : str) (numbered : bool) (title : str) (s : st) : st 
 Definition begin_markup_block (tag id : str) (s : st) : st :=
   match assoc tag (mtags s) with
   | None => w (R "<em" ++ idattr id ++ R ">") s
-  | Some m => w (R "<" ++ mt_cmd m ++ R " class=""" ++ tag ++ R """" ++ pairs_attrs (mt_pairs m) ++ idattr id ++ R ">" ++ mt_begin m) s
+  | Some m => w (R "<" ++ mt_cmd m ++ R " class=""" ++ html_escape tag ++ R """" ++ pairs_attrs (mt_pairs m) ++ idattr id ++ R ">" ++ mt_begin m) s
   end.
 Definition begin_paragraph := w (R "<p>").
 Definition begin_table (t : tdata) (s : st) : st :=
